@@ -1,20 +1,76 @@
-"""Replay aids: native counterexample search for failed Verus obligations, and vacuity re-runs."""
+"""Native executable-contract search (bounded stand-in and replay aid) + vacuity re-runs.  See search/src/main.rs."""
+import json
 import os
 import re
+import shutil
+import subprocess
 import sys
+import tempfile
+import time
 
 HERE = os.path.dirname(os.path.abspath(__file__))
 VERIF = os.path.dirname(HERE)
 sys.path.insert(0, HERE)
 import vunit  # noqa: E402
 
+REPO = os.environ.get('VERIF_REPO', '/repo')
+CACHE = os.path.join(VERIF, '.cache', 'search-target')
+HAS_SEARCH = {'C07', 'C10', 'C15', 'C16', 'C17', 'C18'}
+
+
+def run_search(pid, only=None, timeout=3600):
+    """build the search crate against the tree under check and run it; returns dict(status, checks:[...], cmd, wall_s, log)"""
+    if pid not in HAS_SEARCH:
+        return {'status': 'none', 'checks': []}
+    t0 = time.time()
+    base = os.environ.get('VERIF_TMP') or ('/var/tmp' if os.path.isdir('/var/tmp') else tempfile.gettempdir())
+    root = tempfile.mkdtemp(prefix='verif-search-', dir=base)
+    try:
+        shutil.copytree(os.path.join(VERIF, 'search', 'src'), os.path.join(root, 'src'))
+        toml = open(os.path.join(VERIF, 'search', 'Cargo.toml.in')).read().replace('@REPO@', os.path.abspath(REPO))
+        open(os.path.join(root, 'Cargo.toml'), 'w').write(toml)
+        lock = os.path.join(VERIF, 'search', 'Cargo.lock')
+        if os.path.exists(lock):
+            shutil.copy(lock, os.path.join(root, 'Cargo.lock'))
+        env = dict(os.environ, CARGO_NET_OFFLINE='true', CARGO_TARGET_DIR=CACHE)
+        b = subprocess.run(['cargo', 'build', '--offline', '-q'], cwd=root, env=env, capture_output=True, text=True, timeout=timeout)
+        if b.returncode != 0:
+            return {'status': 'build-failed', 'checks': [], 'log': (b.stdout + b.stderr)[-3000:], 'wall_s': round(time.time() - t0, 1)}
+        cmd = [os.path.join(CACHE, 'debug', 'verif-search'), pid] + (['--only', only] if only else [])
+        p = subprocess.run(cmd, cwd=root, env=env, capture_output=True, text=True, timeout=timeout)
+        checks = []
+        for l in p.stdout.split('\n'):
+            l = l.strip()
+            if l.startswith('{'):
+                try:
+                    checks.append(json.loads(l))
+                except Exception:
+                    pass
+        st = 'ok' if p.returncode == 0 else ('failed' if p.returncode == 1 and checks else 'error')
+        return {'status': st, 'checks': checks, 'cmd': f'verif-search {pid}' + (f' --only {only}' if only else ''),
+                'wall_s': round(time.time() - t0, 1), 'log': p.stderr[-1500:]}
+    finally:
+        shutil.rmtree(root, ignore_errors=True)
+
 
 def find_counterexample(pid, failure, say):
-    return None
+    r = run_search(pid)
+    bad = [c for c in r.get('checks', []) if c.get('failed')]
+    if not bad:
+        return {'searched': r.get('status'), 'checks': [c['check'] for c in r.get('checks', [])], 'failing_input': None}
+    c = bad[0]
+    return {'searched': r.get('status'), 'check': c['check'], 'failing_input': c['first_failure'], 'all_failing_checks': [x['check'] for x in bad],
+            'cases': c['cases'], 'failed': c['failed']}
 
 
 def replay_input(pid, found, say):
-    return True
+    """re-run the one executable contract that failed; True = passes now"""
+    r = run_search(pid, only=found.get('check'))
+    for c in r.get('checks', []):
+        if c.get('failed'):
+            say(f"  still failing: {c['check']}: {c['first_failure']}")
+            return False
+    return r.get('status') == 'ok'
 
 
 def vacuity(pid, cfg, say):
